@@ -607,7 +607,6 @@ bool ScriptEmitter::BuiltinWriteVariable(sourceLocation_t sourceLoc, uint8_t typ
 void ScriptEmitter::EmitAssignmentStatement(sval_t lhs, sourceLocation_t sourceLoc)
 {
     sval_t listener_val;
-    const prchar_t* name = lhs.node[2].stringValue;
 
     if (lhs.node[0].type != statementType_e::Field)
     {
@@ -626,6 +625,8 @@ void ScriptEmitter::EmitAssignmentStatement(sval_t lhs, sourceLocation_t sourceL
         }
     }
 
+    // only a field node has a name slot (NULL and NIL nodes end before it)
+    const prchar_t* const name = lhs.node[2].stringValue;
     const eventName_t eventName = eventSystem.GetEventConstName(name);
     const eventNum_t setterNum = eventSystem.FindSetterEventNum(eventName);
 
